@@ -42,3 +42,9 @@ claim("C15",
       "Decides that the downloaded file can replace a list only on the success edge, that the success flag is false or implies err == nil for the very error being returned and no transfer/parse error is overwritten with nil before that decision, that the parser writes only into the pending file, that an unchanged checksum never triggers a rewrite, that rule count / checksum are written only after a successful replace, from parsing the stored file, as a rollback, or when copying back a list that really was updated with the same ID, and that only a 200 response without transport error is parsed. "
       "These are the structural conditions of 'a failed refresh changes nothing'; the parser's normal form being a fixed point, HTML/binary detection and the effect of a fault at each byte offset are value-level and not decided.",
       "DESIGN.md §5 C15")
+
+claim("C16",
+      "who-may-call / who-may-write enumeration, provenance slices of cache key and value, CFG edge guards on the extractors' return shapes, sibling agreement proxy-replaced => cache-cleared (static analysis)",
+      "Decides that a ClientID reaches request processing only through one cache written by the pre-request hook from the extractor's result and keyed by the proxy's unique request ID on both sides, that the cache is cleared whenever that ID namespace is re-created, that every non-empty ClientID returned is lower-cased and passed label validation on its path, that extractors run only for HTTPS/TLS/QUIC (plain and DNSCrypt never yield one), that an extraction error ends in SERVFAIL before any access check or cache write, and that the server-name and DoH-path forms carry their shape guards (immediate subdomain, strict mismatch is an error, first segment dns-query, exactly two segments, cleaned path). "
+      "Correctness of the string surgery itself for look-alike suffixes, path cleaning and Host parsing is value-level and not decided.",
+      "DESIGN.md §5 C16")
